@@ -9,6 +9,7 @@ from vt.runner import Scenario
 ID = 'C02'
 KIND = 'explorer'
 LEVEL = 'model_checking'
+LIVE = {'thorough': ['stubborn-stop', 'external-kill-then-stop']}
 BUDGET = {'quick': 120, 'thorough': 900}
 RULE = ('every execution = fresh real daemon + simulated kernel; all placements of <=E worker deaths '
         '(exit 1 / killed by 9) at every loop-iteration boundary and before every kernel call of the '
